@@ -24,6 +24,7 @@ def run(v, workdir, replay):
         v.need("fail_at:%d" % k, 5)
     v.need("failed_after_deposit_action", 10)
     v.need("replay_attempts", 20)
+    v.need("replays_of_executed_in_block", 20)
     v.need("gapped_nonce_attempts", 10)
     v.need("successful_executions", 300)
 
@@ -45,6 +46,8 @@ def check(v, hists):
                 iclass = "fail_at"
             if "replay" in intent:
                 v.saw("replay_attempts")
+            if intent == "trial:replay_executed_in_block":
+                v.saw("replays_of_executed_in_block")
             if "gapped" in intent:
                 v.saw("gapped_nonce_attempts")
             if o.result.startswith("refused"):
@@ -75,6 +78,8 @@ def check(v, hists):
                     if (o.signer, o.nonce) in seen_nonce:
                         v.violate("C03/nonce-used-twice", "(signer, nonce) succeeded twice", wit)
                     seen_nonce[(o.signer, o.nonce)] = o.height
+                if o.trial and intent == "trial:replay_executed_in_block":
+                    v.violate("C03/executed-transaction-took-effect-again-in-block", "a transaction that already executed in this block executed successfully a second time", wit)
                 if o.trial and o.id in seen_ids:
                     v.violate("C03/replay-took-effect", "replayed bytes of a committed transaction executed successfully", wit)
             else:
